@@ -37,9 +37,9 @@ CHECKS = {
    note="bounds: L = 6..36 input bytes depending on the target (see evidence), counts that become shapes enumerated up to 6/12 values per site (larger counts are out-of-bound paths, counted); allocation ceiling 51.2e9 bytes; two known findings (unchecked string length allocation in ColStr.DecodeColumn and Reader.StrRaw) are reported as KNOWN-FINDING; native replays run under ulimit -v 16 GiB"),
  "C16": dict(
    level="model_checking",
-   text="For every column type and composition, every history of up to 3 (quick) / 4 (thorough) steps over {Append symbolic value, Reset, encode-without-reset, block decode of valid symbolic data into the used column, failed decode of a truncated block + Reset} is executed on ONE column object; after encode steps and at the end the bytes the used column produces (EncodeRawBlock: Prepare, state, column) are read back into a fresh column and the solver decides that they equal the harness' plain list of model values; decode-after-use must equal the decoded values. Values are symbolic, so 'same value again' and 'new value' are one path each and the solver picks the equality pattern.",
+   text="For every column type and composition, every history of up to 3 steps (the thorough tier widens string and inner-array lengths to 0..1 instead of lengthening histories; generated fixed-width leaves: 2 / 3 steps) over {Append symbolic value, bulk append of two values, Reset, encode-without-reset, block decode of valid symbolic data into the used column, failed decode of a truncated block + Reset} is executed on ONE column object; after encode steps and at the end the bytes the used column produces (EncodeRawBlock: Prepare, state, column) are read back into a fresh column and the solver decides that they equal the harness' plain list of model values; decode-after-use must equal the decoded values. Values are symbolic, so 'same value again' and 'new value' are one path each and the solver picks the equality pattern.",
    ref="DESIGN.md §4 C16",
-   note="bounds: histories <=3/4 steps, strings 1 byte, inner arrays 1 element in quick (0..1 thorough), decode blocks of 0..2 rows, revision fixed 54460; WriteColumn path equivalence is C14's; Infer-in-history is not a step (types fixed per column); LowCardinality(UInt8) additionally through histories of <=3/4 steps mixing server blocks with UInt8/16/32/64 keys (2-entry dictionary, 1..2 rows), relay-encode, Reset and Append"),
+   note="bounds: histories <=3 steps, strings 1 byte, inner arrays 1 element in quick (0..1 thorough), decode blocks of 0..2 rows, revision fixed 54460; WriteColumn path equivalence is C14's; Infer-in-history is not a step (types fixed per column); LowCardinality(UInt8) additionally through histories of <=3/4 steps mixing server blocks with UInt8/16/32/64 keys (2-entry dictionary, 1..2 rows), relay-encode, Reset and Append"),
  "C20": dict(
    level="model_checking",
    text="The real conversion functions (ToDate/Date.Time, ToDate32, ToDateTime, ToDateTime64/DateTime64.Time at each precision 0..9, Precision.Scale, Int128/256 and UInt128/256 helpers, bin*/binPut*, IPv4/IPv6 mappings, Interval.Add) and the parts of package time they call (Unix, In, Zone, FixedZone, Add, IsZero) are executed symbolically; the raw value ranges over its WHOLE type or documented range (all 65536 Dates, all 2^32 DateTimes, Date32 1900..2299, DateTime64 1900..2299 per precision), the instant (sec,nsec) and the fixed zone offset (-12h..+14h) are symbolic; the solver (integer-with-wrap encoding, z3 5.1.0) decides value->time->value identity, calendar-day = floor((unix+offset)/86400), |time->value->time| < 1 tick and exactness on multiples of the tick.",
